@@ -107,14 +107,14 @@ def visible (t : Tree) (l : Leaf) : Bool :=
 def twinName (isNew : Bool) (n : String) : String := if isNew && !isExported n then pascalS n else n
 
 def readable (isNew : Bool) (l : Leaf) : Bool :=
-  isExported l.decl.name || (isNew && l.depth == 0 && l.decl.hasGet)
+  isExported l.decl.name || (isNew && l.decl.hasGet)
 
 /-- constructor parameters of an accessor-mode type: the `new`-marked fields, or all of them -/
 def isCtorParam (t : Tree) (l : Leaf) : Bool :=
-  l.depth == 0 && (l.decl.newMark || !(flatDecls t).any (·.newMark))
+  (l.depth == 0 && l.decl.newMark) || !(flatDecls t).any (·.newMark)
 
 def writable (t : Tree) (isNew : Bool) (l : Leaf) : Bool :=
-  isExported l.decl.name || (isNew && l.depth == 0 && (l.decl.hasSet || isCtorParam t l))
+  isExported l.decl.name || (isNew && (l.decl.hasSet || isCtorParam t l))
 
 /-- the name a source leaf is matched under: its `map:"Name"` tag (Pascal-cased like the tool does) or its own -/
 def effName (isNew : Bool) (l : Leaf) : String :=
@@ -286,9 +286,17 @@ def noUnderscore (n : String) : Bool := !n.toList.contains '_'
 
 def allNames (t : Tree) : List String := (leavesOf t).map (·.decl.name)
 
-/-- the flat accessor-mode shape of C15: no embedded structs, distinct twins, directives only on unexported fields -/
+/-- embedded structs of an accessor-mode type: by value, themselves flat accessor-mode types, no marks or tags inside -/
+def newEmbedsOk : Tree → Bool
+  | .nil => true
+  | .field _ rest => newEmbedsOk rest
+  | .embed _ p body rest =>
+    !p && (embedNames body).isEmpty && (allDecls body).all (fun d => !d.newMark && d.tag == .none) && newEmbedsOk rest
+
+/-- the accessor-mode shape of C15: fields plus embedded accessor-mode structs (one level), distinct twins,
+    directives only on unexported fields -/
 def wfNewSide (t : Tree) (isNew : Bool) : Bool :=
-  !isNew || ((embedNames t).isEmpty &&
+  !isNew || (newEmbedsOk t &&
     ((leavesOf t).map (fun l => pascalS l.decl.name)).Nodup &&
     ((leavesOf t).map (fun l => camelS l.decl.name)).Nodup &&
     (leavesOf t).all (fun l => !(isExported l.decl.name && (l.decl.get || l.decl.set))))
